@@ -5,31 +5,55 @@ package verifsim
 import "time"
 
 // The library's clock.  The overlay rewriter replaces time.Now, time.Since,
-// time.Until and time.Sleep in the library packages by the functions below,
-// so the only wall clock the code under test can read is this one:
+// time.Until, time.Sleep, time.After, time.AfterFunc and time.NewTimer in the
+// library packages by the functions below, so the only wall clock the code
+// under test can read, wait for or be woken by is this one:
 //
-//	now = a fixed epoch + 1 µs per tick of the current SimContext
-//	      + what Sleep added + PerCall for every reading so far
+//	now = a fixed epoch + simMono
 //
-// PerCall is the clock policy of the case: 0 = time stands still between
-// instructions, larger values = a clock that jumps ahead whenever it is
-// looked at (a loaded machine, a suspended VM, an NTP step).  Nothing in the
-// library may make the program, a result or a printed form depend on it
-// (C19; the built-ins now() and time() are exempt and not generated).
+// simMono advances by 1 µs per interpreter tick, by what host functions and
+// Sleep add, and by PerCall at every reading (the clock policy of the case:
+// 0 = time stands still between instructions, larger values = a clock that
+// jumps ahead whenever it is looked at - a loaded machine, a suspended VM, an
+// NTP step).  Nothing in the library may make the program, a result or a
+// printed form depend on it (C19; the built-ins now() and time() are exempt
+// and not generated).  Timers fire when simMono passes their instant - from
+// the tick, Sleep or reading that moved the clock - and when every task of a
+// concurrency simulation is waiting, the clock jumps to the next timer
+// (discrete-event time).
 var (
 	simEpoch    = time.Unix(1700000000, 0)
-	simOffset   int64 // ns
+	simMono     int64 // ns
 	TimePerCall int64 // ns added by every reading of the clock
 	NowCalls    int64 // how often the library read the clock (evidence)
 	SleepCalls  int64
+	TimersMade  int64
+	TimersFired int64
+	timers      []*Timer
 )
+
+// ResetTime starts a case: clock at the epoch, no timers.
+//
+//go:norace
+func ResetTime() {
+	simMono = 0
+	TimePerCall = 0
+	timers = nil
+}
 
 // SetTimePolicy installs the clock policy for the following execution.
 //
 //go:norace
 func SetTimePolicy(perCall time.Duration) {
 	TimePerCall = int64(perCall)
-	simOffset = 0
+}
+
+//go:norace
+func advanceMono(ns int64) {
+	simMono += ns
+	if len(timers) > 0 {
+		fireDue()
+	}
 }
 
 // Now is time.Now on the simulated clock.
@@ -37,13 +61,16 @@ func SetTimePolicy(perCall time.Duration) {
 //go:norace
 func Now() time.Time {
 	NowCalls++
-	simOffset += TimePerCall
-	var ticks int64
-	if c := current(); c != nil {
-		ticks = c.Clock
+	if TimePerCall != 0 {
+		advanceMono(TimePerCall)
 	}
-	return simEpoch.Add(time.Duration(simOffset) + time.Duration(ticks)*time.Microsecond)
+	return simEpoch.Add(time.Duration(simMono))
 }
+
+// peekNow reads the simulated clock without counting as a reading.
+//
+//go:norace
+func peekNow() time.Time { return simEpoch.Add(time.Duration(simMono)) }
 
 // Since is time.Since on the simulated clock.
 func Since(t time.Time) time.Duration { return Now().Sub(t) }
@@ -52,21 +79,166 @@ func Since(t time.Time) time.Duration { return Now().Sub(t) }
 func Until(t time.Time) time.Duration { return t.Sub(Now()) }
 
 // Sleep advances the simulated clock instead of blocking: the context of the
-// running call sees the time pass (and fires if its instant is passed).
+// running call sees the time pass (and fires if its instant is passed); in a
+// concurrency simulation it is a scheduling point.
 //
 //go:norace
 func Sleep(d time.Duration) {
 	SleepCalls++
-	if d <= 0 {
-		return
-	}
-	if c := current(); c != nil {
-		c.Advance(int64(d / time.Microsecond))
-		if c.fired {
-			// everything that still runs counts as "after the cancellation"
-			c.TicksAfter += int64(d / time.Microsecond)
+	if s := active; s != nil && s.cur >= 0 {
+		// in a concurrency simulation the sleeper waits for the clock, which
+		// the other tasks move (and which jumps when everybody waits)
+		if d <= 0 {
+			s.yield(YHost, 1)
+			return
 		}
-		return
+		t := newTimer(d, nil)
+		for {
+			select {
+			case <-t.c:
+				return
+			default:
+			}
+			s.yield(YChan, 7)
+			select {
+			case <-t.c:
+				return
+			default:
+			}
+			s.chanWait(true)
+		}
 	}
-	simOffset += int64(d)
+	if d > 0 {
+		if c := current(); c != nil {
+			c.Advance(int64(d / time.Microsecond))
+			if c.fired {
+				// everything that still runs counts as "after the cancellation"
+				c.TicksAfter += int64(d / time.Microsecond)
+			}
+		} else {
+			advanceMono(int64(d))
+		}
+	}
+}
+
+// Timer has the API of time.Timer on the simulated clock.
+type Timer struct {
+	C     <-chan time.Time
+	c     chan time.Time
+	at    int64
+	f     func()
+	armed bool
+}
+
+//go:norace
+func newTimer(d time.Duration, f func()) *Timer {
+	TimersMade++
+	t := &Timer{at: simMono + int64(d), f: f, armed: true}
+	if f == nil {
+		t.c = make(chan time.Time, 1)
+		t.C = t.c
+	}
+	timers = append(timers, t)
+	if d <= 0 {
+		fireDue()
+	}
+	return t
+}
+
+// NewTimer mirrors time.NewTimer.
+func NewTimer(d time.Duration) *Timer { return newTimer(d, nil) }
+
+// AfterFunc mirrors time.AfterFunc: f runs as a goroutine of its own (a task
+// of the scheduler inside a simulation) when the simulated clock passes d.
+func AfterFunc(d time.Duration, f func()) *Timer { return newTimer(d, f) }
+
+// After mirrors time.After.
+func After(d time.Duration) <-chan time.Time { return newTimer(d, nil).C }
+
+// Stop mirrors (*time.Timer).Stop.
+//
+//go:norace
+func (t *Timer) Stop() bool {
+	was := t.armed
+	t.armed = false
+	return was
+}
+
+// Reset mirrors (*time.Timer).Reset.
+//
+//go:norace
+func (t *Timer) Reset(d time.Duration) bool {
+	was := t.armed
+	t.at = simMono + int64(d)
+	if !t.armed {
+		t.armed = true
+		timers = append(timers, t)
+	}
+	if d <= 0 {
+		fireDue()
+	}
+	return was
+}
+
+//go:norace
+func fireDue() {
+	var due []*Timer
+	keep := timers[:0]
+	for _, t := range timers {
+		switch {
+		case !t.armed:
+		case t.at <= simMono:
+			t.armed = false
+			due = append(due, t)
+		default:
+			keep = append(keep, t)
+		}
+	}
+	timers = keep
+	for _, t := range due {
+		TimersFired++
+		if t.f != nil {
+			// (no scheduling point here: the caller may be in the middle of
+			// one; the new task is runnable from the next decision on)
+			if s := active; s != nil && s.cur >= 0 {
+				s.spawn(t.f)
+			} else {
+				go t.f()
+			}
+		} else {
+			select {
+			case t.c <- simEpoch.Add(time.Duration(t.at)):
+			default:
+			}
+			if s := active; s != nil && s.cur >= 0 {
+				s.progress++
+			}
+		}
+	}
+}
+
+// jumpToNextTimer moves the clock to the earliest armed timer (when nothing
+// else can run); false if there is none.
+//
+//go:norace
+func jumpToNextTimer() bool {
+	best := int64(-1)
+	for _, t := range timers {
+		if t.armed && (best < 0 || t.at < best) {
+			best = t.at
+		}
+	}
+	if best < 0 {
+		return false
+	}
+	if best > simMono {
+		if c := current(); c != nil {
+			// the waiting call's own clock moves too (its deadline may pass)
+			c.Advance((best - simMono + 999) / 1000)
+		} else {
+			simMono = best
+		}
+	}
+	fireDue()
+	return true
 }
